@@ -136,8 +136,7 @@ pub fn run_unary<T: W>(n: usize, fs: FillSet, shard: (usize, usize), seed: u64) 
             }
         }
         "take" => {
-            let len = 1 + mc::choose(3);
-            let idx: Vec<usize> = (0..len).map(|_| mc::choose(n)).collect();
+            let idx: Vec<usize> = crate::unary::choose_take(n);
             let want: Vec<f64> = idx.iter().map(|i| a[*i]).collect();
             let w = || format!("{} take({:?})", what(), idx);
             expect_v::<T>(&Cx { op: "vec.take", class: lc, what: &w }, mc::guard(|| v.take(&idx)), &want, None);
@@ -179,8 +178,9 @@ pub fn judge_var_std<T: W>(v: &Vec<T>, n: usize, mu: f64, var: f64, what: &dyn F
     }
 }
 
-pub fn run_binary<T: W>(n1: usize, nmax: usize, seed: u64) {
-    let n2 = 1 + mc::choose(nmax);
+/// `partners`: the lengths offered to the right-hand operand (every one is paired with `n1`).
+pub fn run_binary<T: W>(n1: usize, partners: &[usize], seed: u64) {
+    let n2 = partners[mc::choose(partners.len())];
     let fa = mc::choose(4);
     let fb = mc::choose(3);
     let a: Vec<f64> = coded(1, n1, fa, seed).round::<T>().v;
